@@ -202,6 +202,7 @@ func runC17(c *Ctx) {
 	ruleSizeArithmetic(c, "R17.7")
 	ruleCRCExtraPreimage(c, "R17.8")
 	ruleTypeAdmission(c, "R17.9")
+	ruleCodecCaches(c, "R17.10")
 }
 
 func sameTags(a, b *types.Named) bool {
